@@ -356,10 +356,16 @@ package desync
 //@ func (s *SwapStore) String
 //@   prop C11
 
+//@ ghost var $swClosed bool
 //@ func (s *SwapStore) Swap
 //@   prop C11
 //@   ensures err == nil ==> s.s == new
 //@   oncall Close: requires held(s.mu) == 1
+//# a store that was closed is never left installed: once Close was called on the old store - whatever it
+//# returned - requests go to the new one
+//@   ghost@entry $swClosed = false
+//@   ghost@after:Close $swClosed = true
+//@   ensures $swClosed ==> s.s == new
 
 //@ func (s *SwapWriteStore) StoreChunk
 //@   prop C11
@@ -371,6 +377,8 @@ package desync
 //@ ghost var $regen bool
 //# a segment of an index with offsets and sizes below 2^62 (conversions to int64 are exact)
 //@ spec func segOK(g IndexSegment) bool = 0 <= g.first && g.first <= g.last && g.last < len(g.index.Chunks) && offsetsBounded(g.index.Chunks)
+//@ ghost var $tfit bool
+//@ ghost var $tseen bool
 //@ func AssembleFile
 //@   prop C07 C01
 //@   safety none
@@ -396,6 +404,15 @@ package desync
 //@   lit 1: assert@loop2.exit @C01 $regen || !segOK(job.segment) || chunksMatch(f, job.segment.index.Chunks[job.segment.first : job.segment.last + 1])
 //# the target is given the indexed length before anything is written (block devices keep their size)
 //@   oncall Truncate: requires @C01 offsetsBounded(idx.Chunks) ==> $arg0 == name && $arg1 == indexLength(idx)
+//# ... on every path: $tfit says that the target has the indexed length (what Stat reported, 0 for a target that
+//# did not exist, the new size after a successful Truncate); when the workers are started a target that is not a
+//# block device has exactly the indexed length, so that every chunk's range can be read back and compared in place
+//# (the first Stat is the one that looks at the target; later ones, e.g. for the block size, do not change what is known)
+//@   ghost@entry $tseen = false
+//@   ghost@after:Stat $tfit = ite($tseen, $tfit, !offsetsBounded(idx.Chunks) || ite($r1 == nil, fsize($r0), 0) == indexLength(idx))
+//@   ghost@after:Stat $tseen = true
+//@   ghost@after:Truncate $tfit = ite($r0 == nil, !offsetsBounded(idx.Chunks) || $a1 == indexLength(idx), $tfit)
+//@   lit 1: requires @C01 !isBlkDevice ==> $tfit
 //@   ghost@entry $eof = false
 //@   ghost@loop3.exit $eof = true
 //@   ensures r1 == nil ==> $eof
@@ -767,7 +784,7 @@ package desync
 
 //@ ghost var $derr error
 //@ func (l *sparseFileLoader) loadChunk
-//@   prop C10
+//@   prop C10 C03
 //@   requires wfSparse(l) && 0 <= i && i < len(l.chunks) && held(l.mu) == 0 && 8*len(l.done) >= len(l.chunks)
 //@   modifies l.done, l.mu, allmem(uint8), heap(sparseIndexChunk.mu), heap(Chunk.data), l.s.$gets, l.s.$lastErr, $attempts, $last, $fv, $derr
 //@   ensures r0 == nil ==> bitAt(bytes(l.done), i)
@@ -788,7 +805,7 @@ package desync
 //@   oncall Set: requires $derr == nil
 
 //@ func (l *sparseFileLoader) loadRange
-//@   prop C10
+//@   prop C10 C03
 //@   requires wfSparse(l) && start >= 0 && length >= 0 && start + length < 1<<62 && held(l.mu) == 0 && 8*len(l.done) >= len(l.chunks)
 //@   ensures held(l.mu) == 0
 //@   loop 1: invariant first <= i && i <= last + 1 && 0 <= first && last < len(l.chunks) && held(l.mu) == 2
@@ -798,9 +815,12 @@ package desync
 //@   assert@loop1.exit i == last + 1
 //@   loop 2: invariant held(l.mu) == 0 && 8*len(l.done) >= len(l.chunks)
 //@   loop 2: invariant forall j int :: inrng(chunksNeeded[:$i], j) ==> bitAt(bytes(l.done), elem(chunksNeeded, j))
+//# C03 (consumer side): a read is served from the cache file only when every chunk of its range is there - nil is
+//# returned only after each queued chunk went through loadChunk (which verified it) successfully
+//@   assert@loop2.exit forall j int :: inrng(chunksNeeded, j) ==> bitAt(bytes(l.done), elem(chunksNeeded, j))
 
 //@ func (h *SparseFileHandle) ReadAt
-//@   prop C10
+//@   prop C10 C03
 //@   requires wfSparse(h.sf.loader) && held(h.sf.loader.mu) == 0 && offset >= 0 && offset + len(b) < 1<<62 && 8*len(h.sf.loader.done) >= len(h.sf.loader.chunks)
 //@   ghost@entry $last = nil
 //@   ghost@after:loadRange $last = $r0
@@ -824,6 +844,7 @@ package desync
 //@   trusted
 //@   modifies l.done, l.mu
 
+//@ ghost var $oname string
 //@ func NewSparseFile
 //@   prop C10
 //@   safety none
@@ -837,6 +858,12 @@ package desync
 //@   oncall Stat: requires !$touched
 //@   oncall loadState: requires !$touched && $sized && $fsz == $ilen
 //@   oncall preloadChunksFromState: requires $touched
+//# the bitmap that is adopted as "these chunks are in the cache file" is read from the state this sparse file
+//# saved (StateSaveFile), never from the init state - that one only says which chunks to fetch from the store
+//@   ghost@entry $oname = ""
+//@   ghost@after:Open $oname = $a0
+//@   oncall loadState: requires opt.StateSaveFile != "" && $oname == opt.StateSaveFile
+//@   oncall preloadChunksFromState: requires $oname == opt.StateInitFile
 
 // ---------------------------------------------------------------------------- C19: decoders survive arbitrary input
 //# No precondition on the input stream: every slice/index bound, make length and allocation size
@@ -896,12 +923,22 @@ package desync
 //@   ensures @C04 old(d.advance) == nil && $r[old($rp)+8] == CaFormatTable && r1 != nil && r1 != $tlast ==> \
 //@       $r[old($rp)] != 18446744073709551615 || $r[old($rp)+16+40*$tlen+8] != 0 || $r[old($rp)+16+40*$tlen+32] != CaFormatTableTailMarker
 
+//@ ghost var $merr error
+//@ ghost var $mlen int
 //@ func (p *Protocol) ReadMessage
-//@   prop C19
+//@   prop C19 C14
 //@   checks alloc
-//@   modifies all, $consumed, $rp, $wn, $tlast, $tlen
+//@   modifies all, $consumed, $rp, $wn, $tlast, $tlen, $merr, $mlen
 //@   ensures $consumed >= old($consumed)
 //@   ensures r1 == nil ==> len(r0.Body) + 16 <= $consumed - old($consumed)
+//# C14: every frame the peer sent is delivered whatever its size (chunk replies are as large as the chunk
+//# sizes of the store they come from): the only errors are a failed read and a length that can not hold a type
+//@   ghost@entry $merr = nil
+//@   ghost@entry $mlen = 16
+//@   ghost@after:ReadUint64 $merr = $r1
+//@   ghost@after:ReadUint64 $mlen = $r0
+//@   ghost@after:ReadN $merr = $r1
+//@   ensures @C14 r1 != nil ==> $merr != nil || $mlen < 16
 
 //@ func IndexFromReader
 //@   prop C19 C04
@@ -1154,11 +1191,19 @@ package desync
 //@   pure
 //@   ensures r0 == hexOf(*c)
 
+//# chunk IDs are parsed strictly: exactly 32 bytes, exactly 64 hexadecimal digits - nothing longer, no suffix; the
+//# servers and the store walkers (which file is a chunk of this store, which ID a request names) rely on it
+//@ func ChunkIDFromSlice
+//@   prop C15 C16 C20
+//@   pure
+//@   ensures r1 == nil <==> len(b) == 32
+
 //@ func ChunkIDFromString
-//@   trusted
+//@   prop C15 C16 C20
 //@   pure
 //@   ensures r1 == nil <==> isHex64(id)
-//@   ensures r1 == nil ==> r0 == idOfHex(id)
+//# (which ID the digits denote is the definition of idOfHex: assumed)
+//@   trusted ensures r1 == nil ==> r0 == idOfHex(id)
 
 //# casync layout: <base>/<first four hex digits>/<64 hex digits><".cacnk" | "">
 //@ spec func extOf(unc bool) string = ite(unc, "", ".cacnk")
@@ -1226,6 +1271,8 @@ package desync
 //@ spec func ownFile(path string, unc bool) bool = hasSuffix(path, extOf(unc)) && isHex64(trimSuffix(pbase(path), extOf(unc)))
 //@ spec func idOfFile(path string, unc bool) ChunkID = idOfHex(trimSuffix(pbase(path), extOf(unc)))
 
+//@ ghost var $wtried bool
+//@ ghost var $wres bool
 //@ func (s LocalStore) Prune
 //@   prop C16 C20 C08
 //@   safety none
@@ -1244,6 +1291,14 @@ package desync
 //@   lit 1: ensures r0 == nil && !isDirOf(info) && hasPrefix(pbase(path), ".tmp-cacnk") ==> $rmTmp && !$removed
 //@   lit 1: ensures $sawDone ==> is(r0, Interrupted) && !$removed && !$rmTmp
 //@   lit 1: ensures !$sawDone && old(err) == nil && isDirOf(info) ==> r0 == nil
+//# the walk starts at the store's directory itself, not at a symbolic link to it (filepath.Walk does not follow
+//# a link given as its root: the store would look empty): the root is the resolved base, or the base as given
+//# when it can not be resolved (the walk then reports the error)
+//@   ghost@entry $wtried = false
+//@   ghost@after:EvalSymlinks $wtried = true
+//@   ghost@after:EvalSymlinks $wres = ($r1 == nil)
+//@   oncall EvalSymlinks: requires $arg0 == s.Base
+//@   oncall Walk: requires @C16 $wtried && (($wres && $arg0 == realPath(s.Base)) || (!$wres && $arg0 == s.Base))
 
 //@ func (s LocalStore) Verify
 //@   prop C16 C20
@@ -1268,11 +1323,20 @@ package desync
 //@   lit 2: ghost@send:ids $queued = true
 //@   lit 2: ensures r0 == nil && !isDirOf(info) && ownFile(path, s.Opt.Uncompressed) ==> $queued
 //@   lit 2: ensures !$sawDone && old(err) == nil && isDirOf(info) ==> r0 == nil
+//# the walk starts at the store's directory itself, not at a symbolic link to it (filepath.Walk does not follow
+//# a link given as its root: the store would look empty): the root is the resolved base, or the base as given
+//# when it can not be resolved (the walk then reports the error)
+//@   ghost@entry $wtried = false
+//@   ghost@after:EvalSymlinks $wtried = true
+//@   ghost@after:EvalSymlinks $wres = ($r1 == nil)
+//@   oncall EvalSymlinks: requires $arg0 == s.Base
+//@   oncall Walk: requires @C16 $wtried && (($wres && $arg0 == realPath(s.Base)) || (!$wres && $arg0 == s.Base))
 
 //# the two formats never share a file name (C20, C16): 64 hex digits versus 64 hex digits plus ".cacnk"
 //@ lemma @C20,C16 formatIsolation: forall b string, i ChunkID, j ChunkID :: chunkPath(b, i, true) != chunkPath(b, j, false)
 //@ lemma @C20,C16 otherFormatNotOwn: forall s string :: isHex64(s) ==> !isHex64(s + ".cacnk") && !(hasSuffix(s, ".cacnk") && isHex64(trimSuffix(s, ".cacnk")))
 
+//@ ghost var $sftpHeld int
 //@ func (s *SFTPStore) Prune
 //@   prop C16
 //@   safety none
@@ -1283,6 +1347,14 @@ package desync
 //# name parses to an ID outside the keep-set; every such file that is visited is removed before the loop moves on
 //@   oncall RemoveChunk: requires ownFile(path, c.opt.Uncompressed) && $arg0 == idOfFile(path, c.opt.Uncompressed) && !has(ids, $arg0)
 //@   assert@loop1.iterend isDirOf(info) || ($removed <==> (ownFile(path, c.opt.Uncompressed) && !has(ids, idOfFile(path, c.opt.Uncompressed))))
+//# the walk holds a connection of the pool for its whole duration; nothing it calls asks the pool for another one
+//# (with a pool of one connection - `-n 1` - that request would never be served and prune would not finish)
+//@   ghost@entry $sftpHeld = 0
+//@   ghost@recv:s.pool $sftpHeld = $sftpHeld + 1
+//@   oncall SFTPStore.RemoveChunk: requires $sftpHeld == 0
+//@   oncall SFTPStore.GetChunk: requires $sftpHeld == 0
+//@   oncall SFTPStore.HasChunk: requires $sftpHeld == 0
+//@   oncall SFTPStore.StoreChunk: requires $sftpHeld == 0
 
 //@ spec func sftpName(c *SFTPStoreBase, id ChunkID) string = c.path + hexOf(id)[0:4] + "/" + hexOf(id) + extOf(c.opt.Uncompressed)
 
@@ -1291,12 +1363,18 @@ package desync
 //@   pure
 //@   ensures r0 == sftpName(s, id)
 
+//@ func (s *SFTPStoreBase) RemoveChunk
+//@   prop C16
+//@   safety none
+//@   pure
+//@   oncall Stat: requires $arg0 == sftpName(s, id)
+//@   oncall Remove: requires $arg0 == sftpName(s, id)
+
 //@ func (s *SFTPStore) RemoveChunk
 //@   prop C16
 //@   safety none
 //@   pure
-//@   oncall Stat: requires $arg0 == sftpName(c, id)
-//@   oncall Remove: requires $arg0 == sftpName(c, id)
+//@   oncall RemoveChunk: requires $arg0 == id
 
 //@ spec func s3Stem(s S3Store, name string) string = trimSuffix(trimPrefix(name, s.prefix), extOf(s.opt.Uncompressed))
 
@@ -1602,6 +1680,7 @@ package desync
 
 //# every filesystem effect of the Create* methods is on Join(root, node name); with a confined node name that is
 //# beneath the root (axiom confinedBeneath). Ownership/mode are restored before the modification time.
+//@ ghost var $timed bool
 //@ func (fs *LocalFS) CreateDir
 //@   prop C18 C05
 //@   safety none
@@ -1615,6 +1694,11 @@ package desync
 //@   oncall SetDirPermissions: requires $arg0 == n && ($last != nil || $sawDone)
 //@   oncall Chtimes: requires $done && $arg0 == pjoin(fs.Root, n.Name) && $arg2 == n.MTime
 //@   ensures $last == nil && !$sawDone ==> r0 != nil && !$done
+//# C05: the modification time of the node is restored whenever it carries one (zero is the "no time" marker of
+//# archives made without timestamps), for every other value - including times before 1970
+//@   ghost@entry $timed = false
+//@   ghost@after:Chtimes $timed = ($r0 == nil)
+//@   ensures @C05 r0 == nil && unixNano(n.MTime) != 0 ==> $timed
 
 //@ func (fs *LocalFS) CreateFile
 //@   prop C18 C05
@@ -1630,8 +1714,12 @@ package desync
 //@   ghost@entry $removed = false
 //@   ghost@after:RemoveAll $removed = ($r0 == nil || notExist($r0))
 //@   oncall OpenFile: requires @C18 $removed
+//# C05: the modification time of the node is restored whenever it carries one (zero is the "no time" marker of
+//# archives made without timestamps), for every other value - including times before 1970
+//@   ghost@entry $timed = false
+//@   ghost@after:Chtimes $timed = ($r0 == nil)
+//@   ensures @C05 r0 == nil && unixNano(n.MTime) != 0 ==> $timed
 
-//@ ghost var $timed bool
 //@ func (fs *LocalFS) CreateSymlink
 //@   prop C18 C05
 //@   safety none
@@ -1652,6 +1740,11 @@ package desync
 //@   oncall LSet: requires $arg0 == pjoin(fs.Root, n.Name)
 //@   oncall Chmod: requires $arg0 == pjoin(fs.Root, n.Name)
 //@   oncall Chtimes: requires $arg0 == pjoin(fs.Root, n.Name)
+//# C05: the modification time of the node is restored whenever it carries one (zero is the "no time" marker of
+//# archives made without timestamps), for every other value - including times before 1970
+//@   ghost@entry $timed = false
+//@   ghost@after:Chtimes $timed = ($r0 == nil)
+//@   ensures @C05 r0 == nil && unixNano(n.MTime) != 0 ==> $timed
 
 // ---------------------------------------------------------------------------- C13: well-formed catar
 
@@ -1774,14 +1867,14 @@ package desync
 //@ func (p *Protocol) RequestChunk
 //@   prop C03
 //@   safety none
-//@   modifies all, $consumed, $rp, $wn, $tlast, $tlen
+//@   modifies all, $consumed, $rp, $wn, $tlast, $tlen, $merr, $mlen
 //@   oncall NewChunkFromStorage: requires $arg0 == id && !$arg3
 //@   ensures @C03 r1 == nil ==> r0 != nil && r0.idCalculated && r0.id == id && H(plain(r0)) == id
 
 //@ func (r *RemoteSSH) GetChunk
 //@   prop C03
 //@   safety none
-//@   modifies all, $consumed, $rp, $wn, $tlast, $tlen
+//@   modifies all, $consumed, $rp, $wn, $tlast, $tlen, $merr, $mlen
 //@   ensures @C03 r1 == nil ==> r0 != nil && r0.idCalculated && r0.id == id && H(plain(r0)) == id
 
 // ---------------------------------------------------------------------------------------------
@@ -2098,8 +2191,9 @@ package desync
 // call (never one that an earlier attempt may have drained), and what is written into it is the
 // index itself.
 
+//# C04 (the HTTP index store): every attempt of the request sends a body made by a new call of WriteTo on the index
 //@ func (r *RemoteHTTPIndex) StoreIndex
-//@   prop C14
+//@   prop C14 C04
 //@   safety none
 //@   requires adjChunks(idx.Chunks)
 //@   lit 1: requires adjChunks(idx.Chunks)
@@ -2132,7 +2226,11 @@ package desync
 //@ ghost var $ifalg int
 //@ func IndexFromFile
 //@   prop C07 C02 C06
-//@   safety none
+//# C02, every input size including the empty file: the set-up arithmetic (number of workers for a small file,
+//# spacing, bucket sizes) never divides by zero for sane parameters (n, min, max >= 1 is what the callers pass:
+//# assumed here, not checked at the call sites)
+//@   safety C02
+//@   nochecks bounds, make, panic
 //@   trusted ensures
 //@   pure
 //# C07, the collector (the chunking workers themselves stay outside, see C02): a nil error is returned only after
@@ -2155,6 +2253,7 @@ package desync
 //@   loop 4: invariant (index.Index.FeatureFlags & CaFormatSHA512256 != 0 <==> $ifalg == crypto.SHA512_256)
 //@   loop 5: invariant (index.Index.FeatureFlags & CaFormatSHA512256 != 0 <==> $ifalg == crypto.SHA512_256)
 //@   assert@returned $ret2 == nil ==> ($ret0.Index.FeatureFlags & CaFormatSHA512256 != 0 <==> $ifalg == crypto.SHA512_256)
+//@   assume@entry n >= 1 && min >= 1 && max >= 1
 
 //@ func NewProgressBar
 //@   trusted
